@@ -13,6 +13,7 @@ DimsOne    == {<<640, 480>>}
 RatesAll   == {<<1, 30>>, <<1, 90000>>, <<1, 1000>>, <<1001, 30000>>, <<30, 1>>, <<2, 25>>}
 StartsWrap == {<<0, 0>>, <<1, 0>>, <<65535, 62536>>, <<65535, 65535>>, <<32767, 65000>>, <<40000, 123>>}
 DimsAll    == {<<640, 480>>, <<1, 1>>, <<65535, 65535>>, <<1920, 1080>>}
+DimsTwo    == {<<640, 480>>, <<65535, 1>>}
 CtorsAll   == {"buf", "memseek", "file", "filewith"}
 DeltasPts  == {1, 89, 90, 3000, 3003, 90000, 262144}
 \* simulation (vector generation)
